@@ -1,6 +1,6 @@
 // C03: glm's SIMD specialisations traced through fake intrinsics, next to the generic path, on the same variables.
 //   g++ -std=c++17 -O0 -w -I/repo -DISA=<0..7> trace/units/C03.cpp     (no -m flags: nothing here is a real intrinsic)
-//   ./a.out trace | list
+//   ./a.out trace [unit] | list | evalcheck <pure|simd> < lines printed by diff/C03.cpp
 // Units:  pure_<op>            glm's generic C++ code (packed_highp types)
 //         simd_<op>_<isa>      the code glm selects for aligned types under GLM_FORCE_INTRINSICS at ISA level <isa>
 //         kern_<fn>_<isa>      a kernel of glm/simd/*.h called directly
@@ -320,6 +320,7 @@ static int c03_main(int argc, char** argv) {
 }
 
 // ------------------------------------------------------------------ the operation table (shared with diff/C03.cpp)
+#define C03_TRACING 1
 #define C03_INT_MINMAX 1      // trace what glm does, whether or not a real compiler would accept it at this -m level
 #include "../fake_intrin/c03_ops.hpp"
 
